@@ -5,6 +5,14 @@ namespace SkNet.Fmt
 
 attribute [-simp] List.getD_eq_getElem?_getD
 
+theorem filterMap_congr' {α β : Type} {f g : α → Option β} : ∀ {l : List α}, (∀ x ∈ l, f x = g x) →
+    l.filterMap f = l.filterMap g
+  | [], _ => rfl
+  | x :: xs, h => by
+    have hx := h x (by simp)
+    have ih := filterMap_congr' (l := xs) (fun y hy => h y (by simp [hy]))
+    simp only [List.filterMap_cons, hx, ih]
+
 theorem sumR_nil : sumR [] = 0 := rfl
 theorem sumR_cons (x : Rat) (l : List Rat) : sumR (x :: l) = x + sumR l := rfl
 
